@@ -32,6 +32,7 @@ def check(prop, tier, seed, replay=None):
                     k = rnd.randrange(r); off = list(can); off[k] = off[k] + rnd.choice([1, 2]) if rnd.random() < 0.7 else max(off[k] - 1, 0); variants.append(('one-off', off))
                     variants.append(('other-layout', canonical('right' if kind == 'left' else 'left', ext)))
                     p = list(can); rnd.shuffle(p); variants.append(('permuted', p))
+                    k = rnd.randrange(r); w = list(can); w[k] += 2 ** C.ITYPES[t][0]; variants.append(('wrap-congruent', w))
                 for name, st in variants:
                     if any(s > C.hi(u) for s in st): continue
                     cases.append((G.line(i), C.fmt(ext), C.fmt(st), name, kind, list(ext), list(st)))
